@@ -269,6 +269,10 @@ class MathArray(np.ndarray):
 
     def __truediv__(self, other):
         super_DIV = super(MathArray, self).__truediv__
+        if is_number_zero(other) or is_numberlike_zero_array(other):
+            # Same error as number/0. (numpy flags 0/0 entries as 'invalid value', which
+            # would otherwise surface as a bare ValueError for arrays containing zeros.)
+            raise ZeroDivisionError
         if isinstance(other, Number):
             return super_DIV(other)
         elif isinstance(other, MathArray):
